@@ -3,9 +3,27 @@
 # cases over all shards, shards=processes, timeout=per-shard seconds, env=..., fuzz="60s" for native fuzz targets).
 
 PROPS = {}
+NOT_APPLICABLE = {}
+ENGINES = [
+    dict(name="E1 unit", path="/verif/harness/trzsz", serves_properties=["C03", "C04", "C06", "C12", "C15", "C16", "C20"],
+         kind_free_text="in-package rapid properties and native fuzz targets against a reference model"),
+    dict(name="E2 pair", path="/verif/harness/trzsz", serves_properties=["C01", "C02", "C04", "C07", "C08", "C09"],
+         kind_free_text="real sender and receiver transfer objects joined by a harness-owned wire (segmenter, tap, faults)"),
+    dict(name="E3 session", path="/verif/harness/trzsz", serves_properties=["C01", "C02", "C05", "C06", "C10", "C11", "C12", "C14", "C17", "C18", "C19"],
+         kind_free_text="exported filter in-process against the real trz/tsz binaries as child processes over the harness wire"),
+    dict(name="E4 relay-sched", path="/verif/harness/trzsz", serves_properties=["C13"],
+         kind_free_text="in-process relay built from yield-instrumented sources with generated arrival pattern and schedule plan"),
+]
 
 PROPS["C03"] = dict(
-    level="exploration",
+    level="exploration", engine="E1 unit",
+    technique="property-based testing (rapid) against a reference stream parser; exhaustive enumeration of short streams x segmentations",
+    level_text="Random search over (stream, segmentation, read sequence) compared with an independent single-cursor reference "
+               "parser and a deterministic no-over-pull check; the thorough tier enumerates every stream of length <= 6 over the "
+               "six-symbol alphabet with every segmentation and 8 read schedules. Exploration is the right level: the property "
+               "is a for-all over inputs with a cheap exact oracle.",
+    level_note="Trusts the reference parser in the harness (40 lines, written from the statement) and rapid. Reads that "
+               "cannot complete are never issued; behaviour after an interrupt is not compared.",
     rule="rapid draws (byte stream, segmentation into non-empty reads, sequence of strict-line / junk-tolerant-line / "
          "binary(n) reads); reference = single-cursor parser written from the statement; plus no-over-pull check "
          "(chunks pulled == index of the chunk holding the last needed byte). Non-trivial = >=2 chunks and >=1 "
